@@ -341,7 +341,7 @@ def correction(polarIMTrans, angles, radial, method):
         # storage for the radial correction factors
         radcorr = []
         radcorr.append(1)  # first slice nothing to compare with
-        previous = polarIMTrans[0]
+        previous = polarIMTrans[0].copy()  # (is updated in place below)
 
         for ang, aslice in zip(angles[1:], polarIMTrans[1:]):
             profile = aslice
